@@ -38,7 +38,7 @@ class ErrWalk:
 
     def callee_neg_sets_error(self, name):
         if name in API:
-            return API[name]["err"] == "neg"
+            return API[name]["err"] in ("neg", "nonzero")
         return self.neg_err.get(name, False) or name in self.always_err
 
     def callee_null_sets_error(self, name):
@@ -84,6 +84,9 @@ class ErrWalk:
                         and not text.startswith("("):
                     # bare call used as a condition
                     if cn0 in API and API[cn0]["err"] == "zero" and not truth:
+                        err = "set"
+                        continue
+                    if cn0 in API and API[cn0]["err"] == "nonzero" and truth:
                         err = "set"
                         continue
                     if truth and (cn0 in self.always_err
